@@ -15,6 +15,105 @@ COMMON_ASSUMPTIONS = [
 ]
 
 PROPS = {
+    "C01": dict(
+        technique="panic/abort monitor (catch_unwind + sharded subprocesses) around Server::handle_message under hostile "
+                  "requests; the same workload under release, AddressSanitizer and Miri builds",
+        rule="scenarios = generated catalogs (1-3 nested zones in IN/CH/HS incl. zones with malformed RDATA, missing SOA, "
+             "duplicate CNAMEs, not-yet-loaded/failed entries; SingleZoneCatalog as well) x server payload sizes 512..65535 x "
+             "RRL on/off x TSIG key sets (incl. 190-octet key names, 1..100-octet secrets); 40 requests per scenario: "
+             "3/4 hostile (random octets up to 65535, every kind of prefix, 1-3 structured mutations of counts, RDLENGTH, "
+             "pointers, inserts, deletes, flips), TSIG-signed requests (valid, stale, corrupted or truncated MAC, unknown "
+             "key, 255-octet algorithm name) and their mutations; UDP and TCP; IPv4, IPv6 and mapped sources. "
+             "distinct = (how the request was made, response shape, request classification) classes",
+        assumptions=COMMON_ASSUMPTIONS + ["response buffers follow the documented caller contract (65535 for TCP, the EDNS payload size for UDP)"],
+        quick=plans(dict(build="dbg", nshards=16), dict(build="miri", nshards=4, timeout=900)),
+        thorough=plans(dict(build="dbg", nshards=16), dict(build="rel", nshards=16), dict(build="asan", nshards=16, scale=0.2), dict(build="miri", nshards=16, timeout=3000)),
+        min_evaluations=200000,
+    ),
+    "C02": dict(
+        technique="every emitted response is decoded by an independent strict RFC 1035/6891/8945 decoder (no octet left "
+                  "over, counts, names, pointers, RDATA of RFC 1035 types, OPT/TSIG placement)",
+        rule="same scenario generator as C01 (hostile zones included), 40 requests per scenario, half of them hostile, "
+             "TSIG-signed requests when keys are configured; every response (to well-formed and malformed requests alike) "
+             "is decoded. distinct = (request kind, response shape) classes",
+        assumptions=COMMON_ASSUMPTIONS + ["type-specific RDATA validity is demanded for RFC 1035 name-bearing types only (zones may hold opaque or malformed RDATA for other types)"],
+        quick=plans(dict(build="dbg", nshards=16)),
+        thorough=plans(dict(build="dbg", nshards=16), dict(build="rel", nshards=16), dict(build="asan", nshards=16, scale=0.2), dict(build="miri", nshards=16, timeout=3000)),
+        min_evaluations=150000,
+    ),
+    "C03": dict(
+        technique="oracle computed from the request octets alone (ID, opcode, QR, RD, RA, reserved bits, question echo, "
+                  "no-response conditions)",
+        rule="exhaustive: all 65536 values of the header flag word x 2 bodies (mixed-case question / no question) x both "
+             "transports; plus scenarios with random flag words, QR set, 0/1/2 questions, QNAMEs that are pointers into "
+             "the header, mixed-case QNAMEs, and hostile mutations. distinct = (opcode, RD, question present, flag bits) classes",
+        assumptions=COMMON_ASSUMPTIONS + ["RRL disabled so that a missing response is attributable"],
+        quick=plans(dict(build="dbg", nshards=16)),
+        thorough=plans(dict(build="dbg", nshards=16), dict(build="rel", nshards=16), dict(build="asan", nshards=16, scale=0.2), dict(build="miri", nshards=16, timeout=3000)),
+        min_evaluations=200000,
+    ),
+    "C04": dict(
+        technique="UDP/TCP twin calls on one server; size-limit, TC and omission oracle over the decoded pair",
+        rule="catalogs with RRsets of 10-80 addresses, 200-octet TXT records, owner names of 120-190 octets with MX sets "
+             "(defeating compression), referrals with and without glue; request EDNS payload sizes drawn from "
+             "{0,1,511,512,513,600,700,1232,1233,2000,4096,65535,random}; server sizes 512..65535; every request is sent "
+             "over UDP and over TCP. distinct = (outcome kind: same / tc / partial, size bucket of the complete response)",
+        assumptions=COMMON_ASSUMPTIONS + ["no TSIG and no RRL in this workload (byte-equality of the twin responses)"],
+        quick=plans(dict(build="dbg", nshards=16)),
+        thorough=plans(dict(build="dbg", nshards=16), dict(build="rel", nshards=16), dict(build="asan", nshards=16, scale=0.2), dict(build="miri", nshards=16, timeout=3000)),
+        min_evaluations=50000,
+    ),
+    "C05": dict(
+        technique="differential execution against an independent flat-map implementation of RFC 1034 §4.3.2 / RFC 4592 / "
+                  "RFC 6604 / RFC 2308 (reference responder R), responses decoded by W",
+        rule="catalogs of 1-3 nested zones (IN, some CH) with delegations at several depths, glue inside/outside, "
+             "wildcards under and beside cuts, empty non-terminals, CNAME chains and loops, MX/SRV/NS targets, mixed case; "
+             "up to 48 names per catalog (every owner and RDATA target, parents, children, grandchildren, random case) x 3 "
+             "query types out of {A,AAAA,NS,CNAME,SOA,MX,TXT,SRV,ANY,PTR,MB,TYPE99}; TCP or UDP with EDNS 65535. "
+             "RCODE, AA, answer and authority (multisets), additional (required <= actual <= allowed) are compared. "
+             "distinct = (expected outcome kind, response shape, wildcard synthesis) classes",
+        assumptions=COMMON_ASSUMPTIONS + [
+            "queries whose outcome the RFCs leave open are counted and not judged: wildcard owners with NS records "
+            "(RFC 4592 §4.2), several CNAME/SOA records at one name, malformed RDATA that processing must interpret, "
+            "SOA MINIMUM above 2^31-1",
+            "wildcard-synthesised address records in the additional section are allowed but not required"],
+        quick=plans(dict(build="dbg", nshards=16)),
+        thorough=plans(dict(build="dbg", nshards=16), dict(build="rel", nshards=16), dict(build="asan", nshards=16, scale=0.2), dict(build="miri", nshards=16, timeout=3000)),
+        min_evaluations=100000,
+    ),
+    "C07": dict(
+        technique="oracle from the statement (reference catalog: longest suffix per class; NOTIMP/REFUSED/SERVFAIL rules) "
+                  "over decoded responses, for HashMapTreeCatalog and SingleZoneCatalog",
+        rule="catalogs of 1-5 entries over nested names in IN/CH/HS/CLASS65280 in the states loaded / not-yet-loaded / "
+             "failed; requests with opcodes 0-15, with and without a question, QCLASS ANY/NONE/unknown, QTYPE "
+             "AXFR/IXFR/MAILA/MAILB, names inside, between and outside the entries. distinct = (expected rule, response shape)",
+        assumptions=COMMON_ASSUMPTIONS,
+        quick=plans(dict(build="dbg", nshards=16)),
+        thorough=plans(dict(build="dbg", nshards=16), dict(build="rel", nshards=16), dict(build="asan", nshards=16, scale=0.2), dict(build="miri", nshards=16, timeout=3000)),
+        min_evaluations=150000,
+    ),
+    "C08": dict(
+        technique="request classifier P (first problem in message order, written from the RFCs) vs the decoded response",
+        rule="well-formed requests (with OPT, junk records in every section) damaged by: truncation at every kind of "
+             "offset, appended junk (1-300 octets), each count +-1 / 0 / 65535, RDLENGTH edits, OPT/TSIG moved to "
+             "answer/authority, duplicated OPT, pointer retargeting, inserts, deletes, flips; 5/6 of requests are damaged. "
+             "Judged when P finds a FORMERR-class problem (or a QUERY without question). distinct = (reason, response shape)",
+        assumptions=COMMON_ASSUMPTIONS + ["a TSIG TTL with the top bit set is not judged (RFC 2181 §8 reads it as zero)"],
+        quick=plans(dict(build="dbg", nshards=16)),
+        thorough=plans(dict(build="dbg", nshards=16), dict(build="rel", nshards=16), dict(build="asan", nshards=16, scale=0.2), dict(build="miri", nshards=16, timeout=3000)),
+        min_evaluations=150000,
+    ),
+    "C09": dict(
+        technique="request classifier P (was an OPT reached, raw version/extended-RCODE octets) vs the decoded response",
+        rule="requests with 0/1/2 OPT records at any position of any section, OPT TTL octets drawn from version x "
+             "{0,1,0x7f,0x80,0xff} extended-RCODE bytes x flag words, payload sizes incl. 0/511/512/65535/random, non-root "
+             "owners, valid and damaged options, other additional records before and after; server payload sizes 512..65535. "
+             "distinct = (OPT reached, payload bucket / BADVERS / owner error, response shape)",
+        assumptions=COMMON_ASSUMPTIONS,
+        quick=plans(dict(build="dbg", nshards=16)),
+        thorough=plans(dict(build="dbg", nshards=16), dict(build="rel", nshards=16), dict(build="asan", nshards=16, scale=0.2), dict(build="miri", nshards=16, timeout=3000)),
+        min_evaluations=150000,
+    ),
     "C14": dict(
         technique="differential execution against an independent RFC 1035 §4.1.4 decoder; panic monitor; Miri/ASan on the same workload",
         rule="exhaustive: every buffer of length <= 5 over the 12 significant octets {0,1,2,3,63,64,0x80,0xbf,0xc0,0xc1,0xff,'a'} "
